@@ -136,9 +136,15 @@ def design_mc(ctx):
     Recovered (refinement of CrashModel's Acceptable at every completed recovery, incl. crashes inside recovery and a
     torn final log write), NoPanic and PageBehindLog."""
     vlib.model_check(ctx, "WalRecovery", "WalRecovery", "MC_quick.cfg", workers=8, timeout=1800)
+    # sensitivity: without the LSN stamp on the catalog page, a crash between the truncation of the log and the first
+    # write of the new log (two steps of the model, as in the code) must lead to a counterexample
+    r = vlib.tlc(ctx, "WalRecovery", "WalRecovery", "MC_emptylog.cfg", workers=4, timeout=900, name="sens-emptylog")
+    if "is violated" not in r["out"]:
+        raise Inconclusive("WalRecovery MC_emptylog.cfg (no LSN stamp) no longer fails: the design model lost its sensitivity\n" + r["out"][-1500:])
     if ctx.tier == "thorough":
         vlib.model_check(ctx, "WalRecovery", "WalRecovery", "MC_quick2.cfg", workers=16, timeout=3000)
         vlib.model_check(ctx, "WalRecovery", "WalRecovery", "MC_1txn_2crash.cfg", workers=16, timeout=3000)
+        vlib.model_check(ctx, "WalRecovery", "WalRecovery", "MC_emptylog_fixed.cfg", workers=16, timeout=3000)
 
 
 def stats(trace):
